@@ -29,4 +29,10 @@ TEXT = {
         "level_text": "Generated-input search: 30k (quick) / 2M (thorough) provider records (chain-level and contextual sets, override, metadata nil/empty/same/own per entry, main provider present or absent, metadata lists nil/shorter/equal/longer, optional JSON round trip) are served by a fake source to a real ProviderCache; GetResults is compared element-wise (context ID, metadata, peer ID, addresses) with an independent specification function; any panic is a violation.",
         "level_note": "Trusted: the harness's reading of the statement (a missing metadata element counts as 'none of its own'; an error return is accepted for any record). Contextual sets have distinct context IDs.",
     },
+    "C18": {
+        "engine": "h23",
+        "technique": "property-based testing (rapid): accept/reject predicate over independently drawn (named provider, signing key) pairs and envelope alterations",
+        "level_text": "Generated-input search: requests of both kinds are built with the library constructors for independently drawn named-provider and signing keys of all four key types, then left alone or altered (envelope key swap, payload type / payload / signature byte flips through the protobuf, raw bit flips, truncation, foreign domain with the right payload type, cross-feeding); the reader must accept exactly when signer = named provider and nothing was semantically altered, and accepted requests must return the fields they were built from.",
+        "level_note": "Trusted: libp2p's record.Seal / protobuf codec used by the harness to build alterations; a raw bit flip that leaves the four parsed envelope fields unchanged is not counted as an alteration.",
+    },
 }
